@@ -89,15 +89,15 @@ func truncJobs(all bool) (jobs []struct {
 	}
 	for _, l := range hs.Langs {
 		if all {
-			for rec := 0; rec <= 3; rec++ {
+			for _, rec := range []int{0, 1, 3} {
 				add(hs.Cfg{Lang: l, Keep: true, Recover: rec}, "Parse")
 			}
-			for _, rec := range []int{1, 3} {
-				add(hs.Cfg{Lang: l, Keep: rec == 3, Recover: rec}, "StmtsSeq")
-				add(hs.Cfg{Lang: l, Keep: rec == 1, Recover: rec}, "InteractiveSeq")
+			if l == syntax.LangBash || l == syntax.LangZsh {
+				add(hs.Cfg{Lang: l, Keep: false, Recover: 1}, "StmtsSeq")
 			}
-			if l == syntax.LangBash || l == syntax.LangPOSIX || l == syntax.LangZsh {
-				for _, e := range []string{"WordsSeq", "Document", "Arithmetic"} {
+			if l == syntax.LangBash {
+				add(hs.Cfg{Lang: l, Keep: true, Recover: 2}, "Parse")
+				for _, e := range []string{"InteractiveSeq", "WordsSeq", "Document", "Arithmetic"} {
 					add(hs.Cfg{Lang: l, Keep: true, Recover: 1}, e)
 				}
 			}
@@ -122,7 +122,16 @@ func runInput(id, src string, mode string, r *rand.Rand) obs {
 		entry string
 	}
 	var jobs []job
-	if mode == "T" || mode == "t" {
+	if mode == "m" || mode == "b" {
+		for _, l := range hs.Langs {
+			jobs = append(jobs, job{hs.Cfg{Lang: l, Keep: true}, "Parse"})
+		}
+		if mode == "m" {
+			jobs = append(jobs, job{hs.Cfg{Lang: syntax.LangBash, Keep: true, Recover: 1}, "Parse"}, job{hs.Cfg{Lang: syntax.LangZsh, Keep: true}, "StmtsSeq"})
+		}
+		jobs = append(jobs, job{hs.Cfg{Lang: syntax.LangBash, Keep: false}, "InteractiveSeq"})
+		full = mode == "m" // all printer option sets for the operand matrix
+	} else if mode == "T" || mode == "t" {
 		for _, j := range truncJobs(mode == "T") {
 			jobs = append(jobs, job{j.cfg, j.entry})
 		}
@@ -174,7 +183,9 @@ func runInput(id, src string, mode string, r *rand.Rand) obs {
 		for _, n := range res.Nodes {
 			o.NTrees++
 			var sets []string
-			if !full {
+			if mode == "b" {
+				sets = []string{"default"}
+			} else if !full {
 				sets = []string{"default", hs.PrinterSetNames[1+r.IntN(len(hs.PrinterSetNames)-1)]}
 			}
 			for _, pm := range hs.Post(n, sets...) {
@@ -292,11 +303,14 @@ func buildInputs(seed uint64, tier string, nGen int) []input {
 	if tier == "thorough" {
 		parts = 1
 	}
+	for i, s := range hs.Always() {
+		ins = append(ins, input{id: fmt.Sprintf("pinned:%d", i), src: s, full: true})
+	}
 	for i, s := range corpus {
 		if parts > 1 && uint64(i)%uint64(parts) != seed%uint64(parts) {
 			continue
 		}
-		ins = append(ins, input{id: fmt.Sprintf("corpus:%d", i), src: s, full: i%16 == 0 || len(s) < 8})
+		ins = append(ins, input{id: fmt.Sprintf("corpus:%d", i), src: s, full: i%32 == 0 || len(s) < 6})
 	}
 	// fixed enumeration: every byte-prefix of every catalogue construct (always, all of them), and the prefixes of the
 	// corpus slice at every token boundary, parsed with recovery on
@@ -315,6 +329,16 @@ func buildInputs(seed uint64, tier string, nGen int) []input {
 			s := hs.ByName(r, stream, corpus)
 			ins = append(ins, input{id: fmt.Sprintf("%s:%d:%d", stream, seed, i), src: s, full: i%16 == 0})
 		}
+	}
+	// fixed enumeration: operand matrix (every template slot x every degenerate operand shape), rotated in thirds in quick
+	for i, m := range hs.Matrix() {
+		if tier == "thorough" || uint64(i)%3 == seed%3 {
+			ins = append(ins, input{id: fmt.Sprintf("matrix:%d", i), src: m, mode: "m"})
+		}
+	}
+	// fixed enumeration: runs that end on either side of 1x / 2x the read buffer, in every lexical context
+	for i, e := range hs.BufEdge(hs.BufSize()) {
+		ins = append(ins, input{id: fmt.Sprintf("bufedge:%d", i), src: e, mode: "b"})
 	}
 	tparts := 32
 	if tier == "thorough" {
@@ -337,7 +361,7 @@ func buildInputs(seed uint64, tier string, nGen int) []input {
 func search(o hx.Opts) {
 	ins := buildInputs(o.Seed, o.Tier, o.N)
 	budget := 6 * time.Second
-	workers := 4
+	workers := 6
 	fmt.Sscan(os.Getenv("C06_WORKERS"), &workers)
 	if workers < 1 {
 		workers = 1
@@ -438,9 +462,18 @@ type scaleObs struct {
 // scale: every family runs in its own child process under a watchdog (a non-advancing loop must not hang the check).
 func scale(o hx.Opts) {
 	r := hx.Rand(o.Seed, 620)
-	for fi, p := range hs.NestPairs {
-		if o.Tier != "thorough" && uint64(fi)%3 != o.Seed%3 {
-			continue
+	nNest := len(hs.NestPairs)
+	for fi := 0; fi < nNest+len(hs.ProductFamilies); fi++ {
+		var p struct{ Open, Close string }
+		if fi < nNest {
+			if o.Tier != "thorough" && uint64(fi)%3 != o.Seed%3 {
+				continue
+			}
+			p.Open, p.Close = hs.NestPairs[fi].Open, hs.NestPairs[fi].Close
+		} else {
+			// product families: all of them on every run (they are the only inputs where two parts of one construct grow together)
+			pf := hs.ProductFamilies[fi-nNest]
+			p.Open, p.Close = "product:"+pf.Head+"["+pf.A+"]*n"+pf.Mid+"["+pf.B+"]*n", ""
 		}
 		for _, closed := range []bool{true, false} {
 			if !closed && p.Close == "" {
@@ -487,10 +520,20 @@ func scale1(o hx.Opts) {
 	closed := o.Args[1] == "true"
 	lang := hs.LangByName(o.Args[2])
 	entry := o.Args[3]
-	p := hs.NestPairs[fi]
-	so := scaleObs{Family: p.Open + "…" + p.Close, Closed: closed, Lang: lang.String(), Entry: entry}
+	var mk func(n int) string
+	so := scaleObs{Closed: closed, Lang: lang.String(), Entry: entry}
+	if fi < len(hs.NestPairs) {
+		p := hs.NestPairs[fi]
+		so.Family = p.Open + "…" + p.Close
+		mk = func(n int) string { return hs.Nest(p, n, closed) }
+	} else {
+		pf := hs.ProductFamilies[fi-len(hs.NestPairs)]
+		so.Family = "product:" + pf.Head + "[" + pf.A + "]*n" + pf.Mid + "[" + pf.B + "]*n"
+		mk = func(n int) string { return hs.Product(pf, n) }
+		base *= 2
+	}
 	for _, mult := range []int{1, 2, 4, 8} {
-		src := hs.Nest(p, base*mult, closed)
+		src := mk(base * mult)
 		best := int64(1 << 62)
 		var st int64
 		for rep := 0; rep < 2; rep++ {
@@ -505,9 +548,9 @@ func scale1(o hx.Opts) {
 			if res.Panic != "" {
 				so.Panic = "parse: " + res.Panic
 			}
-			if rep == 0 && res.Panic == "" {
+			if rep == 0 && mult == 1 && res.Panic == "" { // post-process the smallest size only: the point here is the step count
 				for _, n := range res.Nodes {
-					if pm := hs.Post(n); len(pm) > 0 {
+					if pm := hs.Post(n, "default"); len(pm) > 0 {
 						so.Panic = pm[0]
 						so.WithErr = res.Err != nil
 					}
